@@ -5,7 +5,7 @@ A  Props/C12.v over the MiniScope model (coq/Model/C12.v): a lexical resolver wi
    protocol of cl (positions given to objects exactly as cl/gogen give them):
      C12_uses_elsewhere, C12_defs_at_own_pos (for programs without the four declaration forms
      whose objects get a foreign position), C12_defs_pos_characterised (which Defs are wrong, all
-     programs), C12_recorded_nodes_in_files, and *_refuted witnesses for the forms that violate.
+     programs), C12_recorded_nodes_in_files (all programs), and *_refuted witnesses for the forms that violate.
    K-gen: translator/gen_c12.go reads the cl call sites (position given to each declared object, what
    defNames / compileAssignStmt / compileType / recordCompositeLit record) into Gen/C12.v;
    C12_sites_as_modelled checks that they are what the model hard-wires.
@@ -27,7 +27,7 @@ CLAIM = {
     "text": "Coq theorems over MiniScope, a model of the recorder protocol of cl/typesutil (nested scopes; var/const/type/"
             "func/param/import declarations with the object positions cl really assigns; uses; Def/Use/Type/Scope events): "
             "for all programs every recorded use refers to an object declared elsewhere, every recorded node belongs to the "
-            "file (unless an untyped {...} literal occurs), and Defs carry the identifier's own position exactly for the "
+            "file, and Defs carry the identifier's own position exactly for the "
             "declaration forms characterised in C12_defs_pos_characterised; the remaining forms are refuted by witnesses that "
             "the real checker reproduces. The model is tied to the code by a differential run (identifier map, scope count) "
             "on generated programs; the invariants and the go/types comparison are evaluated on the real Info for generated "
@@ -151,7 +151,7 @@ def run(ctx):
                    "distinct source that type-checks and has >= 8 identifier occurrences. NOT generated at random (they fail on "
                    "the unchanged tree, explored by the deterministic set): multi-name var/const/:= specs, range/for-in "
                    "variables, blank identifiers, re-declared names in :=, local type declarations, typed `var x T = ..x..` "
-                   "self reference, labels, untyped {...} literals, functions/variables first referenced from an earlier body"
+                   "self reference, labels, functions/variables first referenced from an earlier body"
                    % (len(G.deterministic()), len(G.GO_TEXTS), ncorp, ",".join(CORPUS_GLOBS), nrand),
               origin_histogram=hist, construct_histogram=dict(sorted(shape.items())),
               model_vs_impl_compared=len(impl_maps), generated_rejected=len(skipped),
